@@ -361,7 +361,22 @@ impl<'tcx> Cx<'tcx> {
                 o.push(("p", self.pat(q, tr)));
                 o.push(("e", self.expr(e, tr)));
             }
-            Range(..) => o.push(("k", s("PRange"))),
+            Range(lo, hi, end) => {
+                o.push(("k", s("PRange")));
+                o.push(("inclusive", J::Bool(matches!(end, hir::RangeEnd::Included))));
+                for (key, side) in [("lo", lo), ("hi", hi)] {
+                    if let Some(pe) = side {
+                        if let hir::PatExprKind::Lit { lit, negated } = pe.kind {
+                            let mut q: Vec<(&'static str, J)> = Vec::new();
+                            q.push(("neg", J::Bool(negated)));
+                            self.lit(&lit, &mut q);
+                            o.push((key, J::Obj(q)));
+                        } else {
+                            o.push((key, J::Obj(vec![("lit", s("other"))])));
+                        }
+                    }
+                }
+            }
             Slice(a, m, b) => {
                 o.push(("k", s("PSlice")));
                 o.push(("before", J::Arr(a.iter().map(|q| self.pat(q, tr)).collect())));
